@@ -217,7 +217,7 @@ impl Property for C09 {
         // small-scope exhaustive part: orders on every ordered pair / triple of small documents
         let scopes: &[(usize, usize)] = match tier {
             Tier::Quick => &[(3, 2), (2, 3)],
-            Tier::Thorough => &[(4, 2), (3, 3)],
+            Tier::Thorough => &[(4, 2), (2, 3)],
         };
         for (max_nodes, arity) in scopes {
             let (evals, nts, fail) = super::smallscope::run_tuples(*max_nodes, *arity, small_oracle);
